@@ -1,5 +1,6 @@
 import CfbVerif.Phys.Log
 import CfbVerif.Phys.ChainLen
+import CfbVerif.Phys.MiniLen
 import CfbVerif.Handle.Lemmas
 /-!
 # A stream handle only writes at or before the end of its stream
@@ -212,6 +213,78 @@ theorem jr_handleCall (h : H) (st : Bytes) (hi : Handle.Inv h st) (op : DOp) {p 
     (hb : p'.fat.size ≤ MAXREG + 1) : JR p' (upd L slot (stepD h st op).2.1.length) := by
   have hr : LogInRange (L slot) (stepDL h st op) := by rw [hL]; exact stepDL_inRange h st hi op
   have := jr_applyLogPhys slot _ ha j hr hb
+  rw [hL, ← lenAfter_applyLog _ _ (stepDL_inRange h st hi op), stepDL_store] at this
+  exact this
+
+/-- the MiniFAT stays within the range of mini sector numbers between the store operations of a log -/
+def LogMiniBounded (slot : Nat) : P → Nat → List StoreOp → Prop
+  | _, _, [] => True
+  | p, len, .write off bs :: rest =>
+    match writeData p slot len off bs with
+    | .ok (p', len') => p'.miniFat.size ≤ MAXREG + 1 ∧ LogMiniBounded slot p' len' rest
+    | _ => True
+  | p, len, .resize n :: rest =>
+    match Phys.resize p slot len n with
+    | .ok p' => p'.miniFat.size ≤ MAXREG + 1 ∧ LogMiniBounded slot p' n rest
+    | _ => True
+
+/-- the same for the whole allocation-level invariant, mini chains and their lengths included -/
+theorem ja_applyLogPhys (slot : Nat) (log : List StoreOp) : ∀ {p p' : P} {L : Nat → Nat},
+    applyLogPhys p slot (L slot) log = .ok p' → JA p L → LogInRange (L slot) log → LogMiniBounded slot p (L slot) log →
+    p'.fat.size ≤ MAXREG + 1 → JA p' (upd L slot (lenAfter (L slot) log)) := by
+  induction log with
+  | nil =>
+    intro p p' L h j _ _ _
+    simp only [applyLogPhys] at h; cases h
+    simp only [lenAfter]; rw [upd_same]; exact j
+  | cons op rest ih =>
+    intro p p' L h j hr hm hb
+    cases op with
+    | write off bs =>
+      simp only [applyLogPhys] at h
+      simp only [LogInRange] at hr
+      simp only [LogMiniBounded] at hm
+      split at h
+      · rename_i q len' hw
+        rw [hw] at hm
+        have hbq : q.fat.size ≤ MAXREG + 1 := Nat.le_trans (good_applyLogPhys _ _ h).mono hb
+        have j1 : JA q (upd L slot len') :=
+          ⟨⟨jc_writeData hw j.jr.jc hbq, rl_writeData hw j.jr.jc j.jr.rl j.jr.ss hr.1 hbq, (gs_writeData hw).ss j.jr.ss⟩,
+            jmc_writeData hw j.jm hm.1, ml_writeData hw j.jm j.ml hr.1 hm.1⟩
+        have hl := writeData_len hw
+        have h' : applyLogPhys q slot ((upd L slot len') slot) rest = .ok p' := by rw [upd_self]; exact h
+        have := ih h' j1 (by rw [upd_self, hl]; exact hr.2) (by rw [upd_self]; exact hm.2) hb
+        rw [upd_upd, upd_self, hl] at this
+        simpa only [lenAfter] using this
+      · cases h
+      · cases h
+      · cases h
+    | resize n =>
+      simp only [applyLogPhys] at h
+      simp only [LogInRange] at hr
+      simp only [LogMiniBounded] at hm
+      split at h
+      · rename_i q hrz
+        rw [hrz] at hm
+        have hbq : q.fat.size ≤ MAXREG + 1 := Nat.le_trans (good_applyLogPhys _ _ h).mono hb
+        have j1 : JA q (upd L slot n) :=
+          ⟨⟨jc_resize hrz j.jr.jc hbq, rl_resize hrz j.jr.jc j.jr.rl hbq, (gs_resize hrz).ss j.jr.ss⟩,
+            jmc_resize hrz j.jm hm.1, ml_resize hrz j.jm j.ml j.jr.ss hm.1⟩
+        have h' : applyLogPhys q slot ((upd L slot n) slot) rest = .ok p' := by rw [upd_self]; exact h
+        have := ih h' j1 (by rw [upd_self]; exact hr) (by rw [upd_self]; exact hm.2) hb
+        rw [upd_upd, upd_self] at this
+        simpa only [lenAfter] using this
+      · cases h
+      · cases h
+      · cases h
+
+/-- a handle call keeps all of it -/
+theorem ja_handleCall (h : H) (st : Bytes) (hi : Handle.Inv h st) (op : DOp) {p p' : P} {L : Nat → Nat} {slot : Nat}
+    (hL : L slot = st.length) (ha : applyLogPhys p slot (L slot) (stepDL h st op) = .ok p') (j : JA p L)
+    (hm : LogMiniBounded slot p (L slot) (stepDL h st op))
+    (hb : p'.fat.size ≤ MAXREG + 1) : JA p' (upd L slot (stepD h st op).2.1.length) := by
+  have hr : LogInRange (L slot) (stepDL h st op) := by rw [hL]; exact stepDL_inRange h st hi op
+  have := ja_applyLogPhys slot _ ha j hr hm hb
   rw [hL, ← lenAfter_applyLog _ _ (stepDL_inRange h st hi op), stepDL_store] at this
   exact this
 
